@@ -117,7 +117,11 @@ def run_cfg(chk, facts, cfg):
         if not chk.anchor(tname + sfx, adt):
             continue
         tp = adt['path']
-        state = sm.wrapper_state(adt, inner)
+        try:
+            state = sm.wrapper_state(adt, inner)
+        except Unsupported as e:
+            chk.ob('%s:%s-layout%s' % (PID, tname, sfx), 'layout', '%s wraps one statistics state (of the transformed observations)' % tname, False, str(e), adt['span'][0])
+            continue
         # ---- D1 append (inherent and trait form)
         for alabel, fn in (('%s::append' % tname, facts.inherent(tp, 'append')), ('StatisticsOps::append for %s' % tname, facts.trait_method(sm.ops_trait, tp, 'append'))):
             if not chk.anchor(alabel + sfx, fn):
